@@ -566,6 +566,8 @@ type ipcEnv struct {
 	Events    *ipcEventLog
 	// LogHandlers reports how many log handlers (monitors) are registered.
 	LogHandlers func() int
+	// CloseSettle is slept (virtual time) by Close before tearing the agent down.
+	CloseSettle time.Duration
 
 	mu      sync.Mutex
 	clients []*ipcClient
@@ -687,7 +689,9 @@ func (e *ipcEnv) Close() {
 	}
 	// let operations that are still in flight (e.g. a Leave waiting for its
 	// broadcast) finish before the instance is torn down under them
-	time.Sleep(30 * time.Second)
+	if e.CloseSettle > 0 {
+		time.Sleep(e.CloseSettle)
+	}
 	if e.IPC != nil {
 		e.IPC.Shutdown()
 	}
@@ -700,7 +704,7 @@ func (e *ipcEnv) Close() {
 	// goroutine that is still sleeping on a timer (a Leave in progress, a query
 	// stream waiting for its deadline, memberlist's shutdown grace periods)
 	// would be reported as a deadlock. Let them run out here.
-	time.Sleep(2 * time.Minute)
+	time.Sleep(30 * time.Second)
 }
 
 // ipcHandshake performs handshake (+auth) on a fresh client at quiescence; wait must be synctest.Wait.
